@@ -27,7 +27,7 @@ type aProfile struct {
 var aProfiles = map[string]aProfile{
 	"C01": {dryRun: 0.05, ejection: 0.35, reloads: 0.4, smallKept: 0.25, parkSender: 0.3, parkWorker: 0.2, spanLimit: 0.3},
 	"C02": {dryRun: 0.1, ejection: 0.3, reloads: 0.3, smallKept: 0.15, parkSender: 0.3, parkWorker: 0.3, spanLimit: 0.3},
-	"C03": {dryRun: 0.0, ejection: 0.15, reloads: 0.0, parkSender: 0.1, parkWorker: 0.0, spanLimit: 0.5, zeroDefault: 0.12},
+	"C03": {dryRun: 0.0, ejection: 0.15, reloads: 0.0, parkSender: 0.1, parkWorker: 0.2, spanLimit: 0.5, zeroDefault: 0.12},
 	"C04": {dryRun: 0.0, ejection: 0.2, reloads: 0.2, parkSender: 0.2, spanLimit: 0.2, bigRates: true},
 	"C05": {dryRun: 1.0, ejection: 0.25, reloads: 0.3, parkSender: 0.3, parkWorker: 0.1, spanLimit: 0.3, bigRates: true, dryToggle: true},
 	"C06": {dryRun: 0.1, ejection: 0.2, reloads: 0.8, decor: true, parkSender: 0.4, spanLimit: 0.2},
@@ -230,7 +230,37 @@ func genA(check string) func(r *Rng, tier string, p *Plan) {
 			p.Add(Op{K: "park", At: a, S: "sendTrace"})
 			p.Add(Op{K: "release", At: b, S: "sendTrace"})
 		}
-		if r.Bool(pr.parkWorker) {
+		if pr.parkWorker > 0 && r.Bool(0.25) {
+			// a worker stalls for a few tick periods in a gap of the traffic (no
+			// operation of the plan falls into the stall): one send tick fires
+			// meanwhile and waits in the ticker's channel; deadlines pass; the worker
+			// then handles that tick late
+			dur := PickOf(r, 2*ticker, 3*ticker, effTT+ticker)
+			var cands []int64
+			for _, op := range p.Ops {
+				if op.K == "span" {
+					cands = append(cands, op.At+1000)
+				}
+			}
+			for tries := 0; tries < 8 && len(cands) > 0; tries++ {
+				a := cands[r.Intn(len(cands))]
+				free := true
+				for _, op := range p.Ops {
+					if op.At >= a-1000 && op.At <= a+dur+ticker && op.At != a-1000 {
+						free = false
+						break
+					}
+				}
+				if free {
+					p.N["late_tick"] = 1
+					for wk := 0; wk < workers; wk++ {
+						p.Add(Op{K: "park", At: a, S: "collect_worker/" + itoa(wk), M: 1})
+						p.Add(Op{K: "release", At: a + dur, S: "collect_worker/" + itoa(wk)})
+					}
+					break
+				}
+			}
+		} else if r.Bool(pr.parkWorker) {
 			wk := r.Intn(workers)
 			a := snap(r.I64n(span))
 			b := a + PickOf(r, ticker, 3*ticker, 300_000)
